@@ -2,6 +2,7 @@ SPECIFICATION MCSpec
 CONSTANTS
   MaxPop = 3
   LexPop = 3
+  PermCases = {3, 4}
   LexCases = 2
 INVARIANTS ResultSound NeverStuck Pressure TournamentExtremes TournamentLaw LexSurvives LexNeverDominated LexDegenerate LexAcceptsExact Emit
 CHECK_DEADLOCK FALSE
